@@ -347,7 +347,7 @@ func (c *Chain) NextBlock(dt int64) (outs []txOutcome) {
 	var rd strings.Builder
 	for i, r := range res.TxResults {
 		outs = append(outs, txOutcome{Spec: specs[i], Code: r.Code, Log: r.Log, Res: r})
-		fmt.Fprintf(&rd, "%d:%d:%s:%x;", i, r.Code, r.Codespace, r.Data)
+		fmt.Fprintf(&rd, "%d:%d:%s:%x:%d:%d;", i, r.Code, r.Codespace, r.Data, r.GasWanted, r.GasUsed) // what CometBFT hashes into LastResultsHash
 		for _, e := range r.Events {
 			rd.WriteString(e.Type)
 			for _, a := range e.Attributes {
